@@ -6,6 +6,7 @@
   (any length ≥ 2), all distances, both overstep settings.
 -/
 import AeicProofs.Lemmas.C15Manhattan
+import AeicModel.GeoSrc
 
 namespace C15
 open Aeic Aeic.Geo
@@ -275,6 +276,45 @@ theorem gc_distance_as_found_wrong :
     gcDistanceAsFound (manhattan (2 : ℝ) 4) (0, 0) (1, 0) ≠ total (mkTrack (manhattan (2 : ℝ) 4) [(0, 0), (1, 0)] false) := by
   simp only [gcDistanceAsFound, total, mkTrack, legsOf, lastOf, nth, manhattan, lit_real, zero_real]
   norm_num [accumulate]
+
+/-! ### the index arithmetic of the SOURCE (`Gen.gt*`, regenerated from `trajectories/ground_track.py` on every run) -/
+
+/-- what the translator read: `bisect_left` on the cumulative index; both shortcuts (first waypoint, last waypoint); the
+    forward solution starts at `waypoints[pos − 1]` along `azimuths[pos − 1]` over `distance − index[pos − 1]` and the reported
+    azimuth is from the new point to `waypoints[pos]`; overstepping continues from `waypoints[−2]` along `azimuths[−1]` over
+    `distance − index[−2]`, azimuth from `waypoints[−1]` to the new point — decided by the kernel on the regenerated parameters -/
+theorem src_ground_track_parameters :
+    Aeic.Gen.gtBisectLeft = true ∧ Aeic.Gen.gtFirstShortcut = true ∧ Aeic.Gen.gtLastShortcut = true ∧
+    Aeic.Gen.gtLocWp = -1 ∧ Aeic.Gen.gtLocAz = -1 ∧ Aeic.Gen.gtLocIdx = -1 ∧ Aeic.Gen.gtLocAfter = 0 ∧
+    Aeic.Gen.gtLocInvForward = true ∧
+    Aeic.Gen.gtOvWp = 2 ∧ Aeic.Gen.gtOvAz = 1 ∧ Aeic.Gen.gtOvIdx = 2 ∧ Aeic.Gen.gtOvFrom = 1 ∧ Aeic.Gen.gtOvInvFromWaypoint = true := by
+  decide
+
+theorem at'_neg_one (pos : Nat) : at' pos (-1) = pos - 1 := by unfold at'; omega
+theorem at'_zero (pos : Nat) : at' pos 0 = pos := by unfold at'; omega
+
+/-- `GroundTrack.location` as the working tree has it IS the model's `location` -/
+theorem src_location_is_model (t : Track ℝ) (d : ℝ) : locationSrc g t d = location g t d := by
+  obtain ⟨h1, h2, h3, h4, h5, h6, h7, h8, _⟩ := src_ground_track_parameters
+  unfold locationSrc locationWith location
+  rw [h1, h2, h3, h4, h5, h6, h7, h8]
+  simp only [if_true, Bool.true_and, at'_neg_one, at'_zero, decide_eq_true_eq]
+
+/-- `GroundTrack._overstep` as the working tree has it IS the model's `overstepPt` -/
+theorem src_overstep_is_model (t : Track ℝ) (d : ℝ) : overstepSrc g t d = overstepPt g t d := by
+  obtain ⟨_, _, _, _, _, _, _, _, k1, k2, k3, k4, k5⟩ := src_ground_track_parameters
+  unfold overstepSrc overstepWith overstepPt
+  rw [k1, k2, k3, k4, k5]
+  simp only [if_true, lastOf]
+
+/-- … so every distance on a track is answered by the source's `location` with the point on the leg that contains it, exactly
+    `d − index[k]` from that leg's first waypoint (`location_on_track_at_d` for the source) -/
+theorem src_location_on_track_at_d (hn : 2 ≤ wps.length) (hl : TrackLaws g wps) (d : ℝ)
+    (hd0 : 0 ≤ d) (hd1 : d ≤ total (mkTrack g wps ov)) :
+    ∃ p k, locationSrc g (mkTrack g wps ov) d = .ok p ∧ k + 1 < wps.length ∧
+      nth (mkTrack g wps ov).idx k ≤ d ∧ d ≤ nth (mkTrack g wps ov).idx (k + 1) := by
+  obtain ⟨p, k, h, hk, h1, h2, _⟩ := location_on_track_at_d g wps ov hn hl d hd0 hd1
+  exact ⟨p, k, by rw [src_location_is_model]; exact h, hk, h1, h2⟩
 
 /-! ### non-vacuity: the hypotheses are satisfiable (Manhattan world, the oracle of correspondence (a)) -/
 
